@@ -34,3 +34,10 @@ def run(chk):
     from . import forwarding as _fw
     nd_ = _fw.dead_params(chk, c, 'C02-K8', lambda fi: fi.module.name == 'parser')
     chk.floor('parameters examined (C02-K8)', nd_, 60)
+
+    chk.rule('C02-D', 'decision structure of the functions this property is anchored in: every effect statement (store, call, return, '
+                   'raise) runs under the same combinations of the function\'s elementary tests as in the reviewed tree, and none '
+                   'was deleted (reference/decisions.json; compared by meaning, rewritten functions are not compared)')
+    from . import guardrules as _gr
+    nd2_ = _gr.check_decisions(chk, c, 'C02-D', lambda fq_: fq_.startswith(('core.Segment.', 'core._remove_trailing')))
+    chk.floor('functions compared with the decision reference (C02-D)', nd2_, 1)
